@@ -164,6 +164,10 @@ func (a *AvailableCommands) Decode(c *proto.PacketContext, rd io.Reader) error {
 		wireNodes = append(wireNodes, wn)
 	}
 
+	if err = validateWireGraph(wireNodes); err != nil {
+		return err
+	}
+
 	var ok bool
 	queue := append([]*WireNode{}, wireNodes...) // copy
 	// Iterate over the deserialized nodes and attempt to form a graph.
@@ -208,6 +212,64 @@ func (a *AvailableCommands) Decode(c *proto.PacketContext, rd io.Reader) error {
 	return nil
 }
 
+// validateWireGraph rejects child graphs that brigadier's tree cannot represent and that
+// would send CommandNode.AddChild into unbounded merge recursion (a stack overflow is fatal
+// in Go): a node reachable from itself through child links, and two children of one node
+// with the same name. Redirects may form cycles ("execute run ..."), child links may not.
+func validateWireGraph(wireNodes []*WireNode) error {
+	for _, w := range wireNodes {
+		if err := w.validate(wireNodes); err != nil {
+			return err
+		}
+	}
+	// unique child names per parent (root nodes are never added as children)
+	for i, w := range wireNodes {
+		seen := make(map[string]struct{}, len(w.Children))
+		for _, c := range w.Children {
+			child := wireNodes[c]
+			if child.Flags&FlagNodeType == NodeTypeRoot {
+				continue
+			}
+			if _, dup := seen[child.Name]; dup {
+				return fmt.Errorf("node %d has two children named %q", i, child.Name)
+			}
+			seen[child.Name] = struct{}{}
+		}
+	}
+	// no cycles through child links (iterative depth-first search, three colours)
+	const (
+		white, grey, black = 0, 1, 2
+	)
+	colour := make([]byte, len(wireNodes))
+	type frame struct{ node, next int }
+	for start := range wireNodes {
+		if colour[start] != white {
+			continue
+		}
+		stack := []frame{{start, 0}}
+		colour[start] = grey
+		for len(stack) > 0 {
+			f := &stack[len(stack)-1]
+			kids := wireNodes[f.node].Children
+			if f.next == len(kids) {
+				colour[f.node] = black
+				stack = stack[:len(stack)-1]
+				continue
+			}
+			c := kids[f.next]
+			f.next++
+			switch colour[c] {
+			case grey:
+				return fmt.Errorf("node %d is its own descendant", c)
+			case white:
+				colour[c] = grey
+				stack = append(stack, frame{c, 0})
+			}
+		}
+	}
+	return nil
+}
+
 // remove element from slice: order is not important
 func removeWN(s []*WireNode, i int) []*WireNode {
 	s[len(s)-1], s[i] = s[i], s[len(s)-1]
@@ -216,6 +278,7 @@ func removeWN(s []*WireNode, i int) []*WireNode {
 
 type WireNode struct {
 	IDx        int
+	Name       string // literal or argument name, empty for the root
 	Flags      byte
 	Children   []int
 	RedirectTo int
@@ -249,6 +312,7 @@ func (w *WireNode) decode(rd io.Reader, protocol proto.Protocol) (err error) {
 		if err != nil {
 			return err
 		}
+		w.Name = literal
 		w.Args = brigodier.Literal(literal).NodeBuilder()
 	case NodeTypeArgument:
 		name, err := util.ReadString(rd)
@@ -259,6 +323,7 @@ func (w *WireNode) decode(rd io.Reader, protocol proto.Protocol) (err error) {
 		if err != nil {
 			return err
 		}
+		w.Name = name
 		argBuilder := brigodier.Argument(name, argType)
 		if w.Flags&FlagHasSuggestions != 0 {
 			name, err = util.ReadString(rd)
